@@ -58,7 +58,16 @@ static void fill(unsigned char *buf, size_t n, uint64_t code)
 {
 	size_t i;
 	uint64_t s = code;
-	int mode = code % 4;
+	int mode = code % 5;
+	if (mode == 4) {
+		/* a random segment repeated at a distance of 300..5000 bytes: only a large enough window finds the matches */
+		size_t period = 300 + (code >> 24) % 4700;
+		for (i = 0; i < n; ++i) {
+			if (i < period) { s = s * 6364136223846793005ULL + 1442695040888963407ULL; buf[i] = s >> 56; }
+			else buf[i] = buf[i - period];
+		}
+		return;
+	}
 	for (i = 0; i < n; ++i) {
 		if (mode == 0) buf[i] = (unsigned char)(i * 7 + code);
 		else if (mode == 1) { s = s * 6364136223846793005ULL + 1442695040888963407ULL; buf[i] = s >> 56; }
@@ -76,15 +85,58 @@ typedef struct kind_t {
 
 static int comp_id;
 static int comp_uncompress;
+static uint64_t comp_variant;	/* 0 = default options; otherwise seeds non-default options (same for all objects of a run) */
+
+static void comp_config(sqfs_compressor_config_t *cfg)
+{
+	uint64_t v = comp_variant;
+	sqfs_compressor_config_init(cfg, comp_id, 8192, comp_uncompress ? SQFS_COMP_FLAG_UNCOMPRESS : 0);
+	if (v == 0)
+		return;
+	switch (comp_id) {
+	case SQFS_COMP_GZIP:
+		cfg->level = SQFS_GZIP_MIN_LEVEL + v % 9;
+		cfg->opt.gzip.window_size = SQFS_GZIP_MIN_WINDOW + (v >> 8) % 8;
+		cfg->flags |= (v >> 16) % 3 == 0 ? ((v >> 20) & SQFS_COMP_FLAG_GZIP_ALL) : 0;
+		break;
+	case SQFS_COMP_XZ:
+		cfg->level = v % 10;
+		cfg->opt.xz.lc = (v >> 8) % 5;
+		cfg->opt.xz.lp = (v >> 12) % (5 - cfg->opt.xz.lc);
+		cfg->opt.xz.pb = (v >> 16) % 5;
+		cfg->opt.xz.dict_size = ((v >> 20) & 1) ? 8192 : (((v >> 21) & 1) ? 12288 : 16384);
+		cfg->flags |= (v >> 24) % 3 == 0 ? ((v >> 28) & SQFS_COMP_FLAG_XZ_ALL) : 0;
+		break;
+	case SQFS_COMP_LZMA:
+		cfg->level = v % 10;
+		cfg->opt.lzma.lc = (v >> 8) % 5;
+		cfg->opt.lzma.lp = (v >> 12) % (5 - cfg->opt.lzma.lc);
+		cfg->opt.lzma.pb = (v >> 16) % 5;
+		cfg->opt.lzma.dict_size = ((v >> 20) & 1) ? 8192 : 32768;
+		cfg->flags |= (v >> 24) & SQFS_COMP_FLAG_LZMA_EXTREME;
+		break;
+	case SQFS_COMP_LZ4:
+		cfg->flags |= (v & 1) ? SQFS_COMP_FLAG_LZ4_HC : 0;
+		break;
+	case SQFS_COMP_ZSTD:
+		cfg->level = SQFS_ZSTD_MIN_LEVEL + v % 22;
+		break;
+	}
+}
 
 static void *comp_create(int which)
 {
 	sqfs_compressor_config_t cfg;
 	sqfs_compressor_t *c = NULL;
 	(void)which;
-	sqfs_compressor_config_init(&cfg, comp_id, 8192, comp_uncompress ? SQFS_COMP_FLAG_UNCOMPRESS : 0);
-	if (sqfs_compressor_create(&cfg, &c) != 0)
-		return NULL;
+	comp_config(&cfg);
+	if (sqfs_compressor_create(&cfg, &c) != 0) {
+		/* an option combination the library refuses: fall back to the defaults for every object alike */
+		comp_variant = 0;
+		comp_config(&cfg);
+		if (sqfs_compressor_create(&cfg, &c) != 0)
+			return NULL;
+	}
 	return c;
 }
 
@@ -110,7 +162,8 @@ static uint64_t comp_op(void *obj, uint64_t code)
 		/* produce a valid compressed block with a throw-away compressor */
 		sqfs_compressor_config_t cc;
 		sqfs_compressor_t *enc = NULL;
-		sqfs_compressor_config_init(&cc, comp_id, 8192, 0);
+		comp_config(&cc);
+		cc.flags &= ~SQFS_COMP_FLAG_UNCOMPRESS;
 		if (sqfs_compressor_create(&cc, &enc) != 0) return 1;
 		ret = enc->do_block(enc, in, n, tmp, sizeof(tmp));
 		sqfs_drop(enc);
@@ -256,8 +309,14 @@ static uint64_t data_op(void *obj, uint64_t code)
 	return h;
 }
 
+static sqfs_u32 xattr_ids;
 static void *xr_create(int which)
 {
+	if (!xattr_ids && !(super.flags & SQFS_FLAG_NO_XATTRS) && super.xattr_id_table_start != 0xFFFFFFFFFFFFFFFFULL) {
+		unsigned char hdr[16];
+		if (imgfile->read_at(imgfile, super.xattr_id_table_start, hdr, sizeof(hdr)) == 0)
+			xattr_ids = hdr[8] | (hdr[9] << 8) | (hdr[10] << 16) | ((sqfs_u32)hdr[11] << 24);
+	}
 	sqfs_xattr_reader_t *x = sqfs_xattr_reader_create(0);
 	(void)which;
 	if (x && sqfs_xattr_reader_load(x, &super, imgfile, uncmp) != 0) { sqfs_drop(x); return NULL; }
@@ -268,7 +327,7 @@ static uint64_t xr_op(void *obj, uint64_t code)
 	sqfs_xattr_reader_t *x = obj;
 	sqfs_xattr_t *l = NULL, *it;
 	uint64_t h = H0;
-	int ret = sqfs_xattr_reader_read_all(x, (code >> 8) % 12, &l);
+	int ret = sqfs_xattr_reader_read_all(x, (code >> 8) % (xattr_ids + 3), &l);
 	h = HV(h, ret);
 	if (!ret) {
 		for (it = l; it; it = it->next) { h = H(h, it->key, strlen(it->key)); h = H(h, it->value, it->value_len); }
@@ -417,6 +476,7 @@ int main(int argc, char **argv)
 	scratch = argv[5];
 	copy_of_copy = argc > 6;
 	if (open_image() != 0) { printf("HARNESS-ERROR cannot open image\n"); return 2; }
+	comp_variant = (strtoull(argv[2], NULL, 0) % 4 == 0) ? 0 : (rng >> 7) | 1;
 
 	for (i = 0; i < 10; ++i)
 		if (!strcmp(argv[1], comps[i].name)) {
